@@ -120,7 +120,8 @@ def tla_seq(xs):
 def validate_one(run, scratch, r, tag):
     """One recorded calculator -> one TLC run of Trace_Recalc."""
     npar, n = r["npar"], r["n"]
-    nvals = max([1] + [len(t) for t in r["tok"]])
+    toks = [x for e in r["events"] for k in ("ch", "lastv", "undo") for x in e[k]] + list(r["init"])
+    nvals = max([1] + toks)
     modname = f"TRC_{os.getpid()}_{tag}"
     cases = "\n        [] ".join(f"c = {c} -> {tla_seq(r['args'].get(c, []))}" for c in range(npar + 1, n + 1))
     mod = (
@@ -158,6 +159,42 @@ def validate_one(run, scratch, r, tag):
     if bad:
         return "rejected", bad, r["events"][bad - 1]
     return "ok", int(m.group(1)), None
+
+
+PLUGIN = '''
+import atexit, json, os, sys
+sys.path.insert(0, os.environ["VERIF_HARNESS"])
+import trace_C07
+_rec = trace_C07.CalcRecorder(max_events=300)
+_rec.install()
+def _dump():
+    out = [dict(npar=r["npar"], n=r["n"], args=r["args"], recycled=r["recycled"], init=r["init"], events=r["events"], names=r["names"])
+           for r in _rec.calcs.values() if len(r["events"]) >= 5]
+    with open(os.environ["VERIF_TRACE_OUT"], "w") as fh:
+        json.dump(out, fh)
+atexit.register(_dump)
+'''
+
+
+def record_repo_tests(scratch, files):
+    """Run repository tests under the calculator recorder (pytest plugin, no source change)."""
+    import subprocess
+    import sys
+
+    from tlc import VERIF
+
+    plug = scratch / "verif_c07_plugin.py"
+    plug.write_text(PLUGIN)
+    out = scratch / "repo-calc-traces.json"
+    env = dict(os.environ, VERIF_HARNESS=str(VERIF / "harness"), VERIF_TRACE_OUT=str(out), PYTHONPATH=f"{scratch}:{os.environ.get('PYTHONPATH', '')}")
+    subprocess.run([sys.executable, "-m", "pytest", "-q", "-p", "no:cacheprovider", "-p", "verif_c07_plugin", *files],
+                   cwd=os.environ.get("VERIF_REPO", "/repo"), env=env, capture_output=True, text=True, timeout=3000)
+    if not out.exists():
+        return []
+    recs = json.loads(out.read_text())
+    for r in recs:
+        r["args"] = {int(k): v for k, v in r["args"].items()}
+    return recs
 
 
 def record_and_validate(run, scratch, ntraces):
@@ -199,5 +236,18 @@ def record_and_validate(run, scratch, ntraces):
             run.fail(f"calc-trace:invariant:{info}", {"npar": r["npar"], "ncells": r["n"], "names": r["names"]}, what=f"{info} violated along a recorded behaviour of a real calculator")
         if k == 1:
             run.sample({"calc_trace": {"npar": r["npar"], "ncells": r["n"], "recycled": r["recycled"], "first_events": r["events"][:3], "n_events": len(r["events"])}})
+    if run.tier == "thorough":
+        # calculators created by the repository's own likelihood tests (their optimisers, bootstraps, interval searches)
+        recs = record_repo_tests(scratch, ["tests/test_evolve/test_likelihood_function.py", "tests/test_evolve/test_parameter_controller.py", "tests/test_recalculation.py"])
+        recs.sort(key=lambda r: -len(r["events"]))
+        stats["repo_test_calculators"] = 0
+        for j, r in enumerate(recs[:25]):
+            status, info, ev = validate_one(run, scratch, r, f"repo{j}")
+            stats["repo_test_calculators"] += 1
+            stats["events"] += len(r["events"])
+            run.cov["traces_validated_against_impl"] += 1
+            if status != "ok":
+                stats["rejected"] += 1
+                run.fail(f"calc-trace:repo-tests:{status}", {"step": info, "event": ev, "npar": r["npar"], "ncells": r["n"], "names": r["names"]}, what="a Calculator.change() sequence recorded from the repository's tests is not a behaviour of Recalc.tla")
     run.note("layer1_calculator_traces", stats)
     return stats
